@@ -11,6 +11,7 @@ from .engine import (OutOfReach, PathEnd, ReturnSig, BreakSig, ContinueSig, PyRa
                      EXC_PARENTS)
 from . import regex2smt
 from . import builtins_ as B
+from . import relib  # noqa: registers regex builtins
 
 
 def has_yield(fn_node):
@@ -186,6 +187,15 @@ class Interp(object):
                 return module.functions[name]
             if name in module.classes:
                 return module.classes[name]
+            if name in module.imports and module.is_repo:
+                # a module may rebind an imported name (`spaceCharacters = "".join(spaceCharacters)`):
+                # the real module's global is the truth for plain data
+                try:
+                    cv = module.consts().get(name)
+                except Exception:
+                    cv = None
+                if cv is not None and not isinstance(cv, (FuncRef, ClassRef, ModuleRef, Opaque)):
+                    return self.from_const(cv)
             if name in module.imports:
                 modname, attr = module.imports[name]
                 r = self.resolve_import(modname, attr)
